@@ -21,6 +21,11 @@ impl Monitor for M {
         let big = !light && ctx.index % 400 == 7;
         let m = if ctx.index % 4 == 0 {
             gen_systematic(&mut ctx.rng, (ctx.index / 4) % SYS_PERIOD).0
+        } else if !light && ctx.index % 1600 == 407 {
+            // the message whose standard header reads "DLT\x01" (HTYP 0x44, counter 0x4C, length 0x5401)
+            ctx.obs("messages.header_equals_storage_pattern");
+            let storage = ctx.rng.chance(1, 2);
+            crate::gen_msg::pattern_start_msg(&mut ctx.rng, storage)
         } else if big && ctx.index % 1600 == 7 {
             // one of the 16 largest lengths: with a storage header the message exceeds 65535 bytes
             ctx.obs("messages.near_max_length");
